@@ -32,6 +32,7 @@
 #include <stdio.h>
 #include <stdlib.h>
 #include <string.h>
+#include <sys/stat.h>
 
 #include <unistd.h>
 #include <limits.h>
@@ -266,23 +267,70 @@ char * etcLdSoPreload_readFile ()
 void etcLdSoPreload_writeFile (char * newContent)
 {
     const char * filePath;
+    char         tmpFilePath[PATH_MAX];
+    struct stat  statBuf;
+    mode_t       fileMode = S_IRUSR | S_IWUSR | S_IRGRP | S_IROTH;
+    int          tmpFileFd;
+    FILE       * tmpFileHandle;
 
     filePath = etcLdSoPreload_getFilePath();
 
-    FILE * fileHandle = fopen(filePath, "w+");
-    if (fileHandle == NULL) {
+    /*
+     * The dynamic linker reads this file on every exec, so it must never be seen
+     * (or left behind, if we get killed) empty or partially written: compose the
+     * new content in a temporary file next to it, then rename() it into place.
+     */
+    if (snprintf(tmpFilePath, sizeof(tmpFilePath), "%s.snoopyctl-XXXXXX", filePath) >= (int) sizeof(tmpFilePath)) {
+        printDiagValue("ld.so.preload path", filePath);
+        fatalError("Unable to open file for writing (path too long).");
+    }
+    if (stat(filePath, &statBuf) == 0) {
+        fileMode = statBuf.st_mode & (S_IRWXU | S_IRWXG | S_IRWXO);
+    }
+
+    tmpFileFd = mkstemp(tmpFilePath);
+    if (tmpFileFd == -1) {
         printDiagValue("ld.so.preload path", filePath);
         printDiagValue("Error message", strerror(errno));
         fatalError("Unable to open file for writing (missing sudo, maybe?).");
     }
-
-    if (fprintf(fileHandle, "%s", newContent) < 0) {
+    tmpFileHandle = fdopen(tmpFileFd, "w");
+    if (tmpFileHandle == NULL) {
         printDiagValue("ld.so.preload path", filePath);
         printDiagValue("Error message", strerror(errno));
+        close(tmpFileFd);
+        unlink(tmpFilePath);
+        fatalError("Unable to open file for writing (missing sudo, maybe?).");
+    }
+
+    if (
+        (fprintf(tmpFileHandle, "%s", newContent) < 0)
+        ||
+        (fflush(tmpFileHandle) != 0)
+        ||
+        (fchmod(tmpFileFd, fileMode) != 0)
+        ||
+        (fsync(tmpFileFd) != 0)
+    ) {
+        printDiagValue("ld.so.preload path", filePath);
+        printDiagValue("Error message", strerror(errno));
+        fclose(tmpFileHandle);
+        unlink(tmpFilePath);
+        fatalError("Unable to write to file.");
+    }
+    if (fclose(tmpFileHandle) != 0) {
+        printDiagValue("ld.so.preload path", filePath);
+        printDiagValue("Error message", strerror(errno));
+        unlink(tmpFilePath);
         fatalError("Unable to write to file.");
     }
 
-    fclose(fileHandle);
+    if (rename(tmpFilePath, filePath) != 0) {
+        printDiagValue("ld.so.preload path", filePath);
+        printDiagValue("Error message", strerror(errno));
+        unlink(tmpFilePath);
+        fatalError("Unable to replace the file.");
+    }
 }
 
 
